@@ -296,18 +296,33 @@ def _block_locals(fd, log=None):
                         continue
                     ops = {n.id for n in ast.walk(st.value) if isinstance(n, ast.Name)}
                     bad = False
-                    # what may not change the operands: everything between the binding and the last read; in the statement of the last read, a simple
-                    # assignment evaluates its right-hand side (the read) before it stores
+                    # what may not change the operands: everything between the binding and the last read, in program order (pre-order of the statements);
+                    # a loop that contains a read counts as a whole (its next iteration reads again); in the simple statement of the last read the
+                    # right-hand side is evaluated before the targets are stored
                     load_ids = {id(n) for n in loads}
-                    last_j = max(j_ for j_ in range(i + 1, len(blk)) if any(id(x_) in load_ids for x_ in _walk_no_defs([blk[j_]])))
-                    watched = [n for b in blk[i + 1:last_j] for n in _walk_no_defs([b])]
-                    lastst = blk[last_j]
-                    if isinstance(lastst, (ast.Assign, ast.AugAssign, ast.Return, ast.Expr)) and lastst.value is not None:
-                        watched += list(_walk_no_defs([lastst.value])) if isinstance(lastst.value, ast.AST) else []
-                        if isinstance(lastst, ast.AugAssign) and isinstance(lastst.target, ast.Name) and lastst.target.id in ops:
+                    later = [n for n in later if not isinstance(n, (ast.expr_context, ast.operator, ast.cmpop, ast.boolop, ast.unaryop))]    # shared singletons
+                    pos = {id(n): k_ for k_, n in enumerate(later)}
+                    simple_of = {}
+                    for n in later:
+                        if isinstance(n, ast.stmt) and not isinstance(n, (ast.If, ast.For, ast.While, ast.With, ast.Try)):
+                            for x_ in ast.walk(n):
+                                simple_of[id(x_)] = n
+                    last_load = max(loads, key=lambda n: pos[id(n)])
+                    last_stmt = simple_of.get(id(last_load))
+                    last_pos = max(pos[id(x_)] for x_ in ast.walk(last_stmt) if id(x_) in pos) if last_stmt is not None else pos[id(last_load)]
+                    for lp_ in later:
+                        if isinstance(lp_, (ast.For, ast.While)) and any(id(x_) in load_ids for x_ in ast.walk(lp_)):
+                            last_pos = max(last_pos, max(pos[id(x_)] for x_ in ast.walk(lp_) if id(x_) in pos))
+                            if last_stmt is not None and last_pos > max(pos[id(x_)] for x_ in ast.walk(last_stmt) if id(x_) in pos):
+                                last_stmt = None
+                    skip_ids = set()
+                    if last_stmt is not None and isinstance(last_stmt, (ast.Assign, ast.AugAssign, ast.AnnAssign)) and \
+                            last_pos == max(pos[id(x_)] for x_ in ast.walk(last_stmt) if id(x_) in pos):
+                        tg_ = last_stmt.targets if isinstance(last_stmt, ast.Assign) else [last_stmt.target]
+                        skip_ids = {id(x_) for t_ in tg_ for x_ in ast.walk(t_)} | {id(last_stmt)}
+                        if isinstance(last_stmt, ast.AugAssign) and isinstance(last_stmt.target, ast.Name) and last_stmt.target.id in ops:
                             bad = True
-                    else:
-                        watched += list(_walk_no_defs([lastst]))
+                    watched = [n for n in later if pos[id(n)] <= last_pos and id(n) not in skip_ids]
                     for n in watched:
                         if isinstance(n, ast.Name) and isinstance(n.ctx, (ast.Store, ast.Del)) and n.id in ops:
                             bad = True
@@ -519,6 +534,18 @@ class _ConstCond(ast.NodeTransformer):
             return ('k', e.value)
         return None
 
+    @staticmethod
+    def never_none(e):
+        if isinstance(e, ast.Constant):
+            return e.value is not None
+        if isinstance(e, (ast.List, ast.Tuple, ast.Dict, ast.Set, ast.JoinedStr, ast.Compare, ast.ListComp, ast.DictComp, ast.SetComp)):
+            return True
+        if isinstance(e, ast.Call) and isinstance(e.func, ast.Name) and e.func.id in ('len', 'str', 'int', 'bool', 'list', 'tuple', 'dict', 'sorted', 'abs', 'min', 'max'):
+            return True
+        if isinstance(e, ast.BinOp) and isinstance(e.op, (ast.Add, ast.Sub, ast.Mult)):
+            return True
+        return False
+
     def visit_Compare(self, n):
         self.generic_visit(n)
         if len(n.ops) == 1 and isinstance(n.ops[0], (ast.Is, ast.IsNot)):
@@ -526,6 +553,15 @@ class _ConstCond(ast.NodeTransformer):
             if a is not None and b is not None:
                 r = a[1] is b[1]
                 return ast.copy_location(ast.Constant(value=r if isinstance(n.ops[0], ast.Is) else not r), n)
+            # `<never None> is None` is False;  `(X if C else Y) is None` distributes over the branches
+            if b == ('k', None):
+                if self.never_none(n.left):
+                    return ast.copy_location(ast.Constant(value=isinstance(n.ops[0], ast.IsNot)), n)
+                if isinstance(n.left, ast.IfExp) and all(self.never_none(x) or self.val(x) == ('k', None) for x in (n.left.body, n.left.orelse)):
+                    def side(x):
+                        isnone = self.val(x) == ('k', None)
+                        return ast.Constant(value=isnone if isinstance(n.ops[0], ast.Is) else not isnone)
+                    return self.visit_IfExp(ast.copy_location(ast.IfExp(test=n.left.test, body=side(n.left.body), orelse=side(n.left.orelse)), n))
         return n
 
     def visit_UnaryOp(self, n):
@@ -559,6 +595,13 @@ class _ConstCond(ast.NodeTransformer):
         self.generic_visit(n)
         if isinstance(n.test, ast.Constant) and isinstance(n.test.value, bool):
             return n.body if n.test.value else n.orelse
+        # `True if C else False` is C (for a test that is a comparison / not / and / or: already a bool);  `False if C else True` is not C
+        if isinstance(n.body, ast.Constant) and isinstance(n.orelse, ast.Constant) and isinstance(n.body.value, bool) and isinstance(n.orelse.value, bool) and \
+                isinstance(n.test, (ast.Compare, ast.UnaryOp)) and (not isinstance(n.test, ast.UnaryOp) or isinstance(n.test.op, ast.Not)):
+            if n.body.value and not n.orelse.value:
+                return n.test
+            if not n.body.value and n.orelse.value:
+                return ast.copy_location(ast.UnaryOp(op=ast.Not(), operand=n.test), n)
         return n
 
     def visit_If(self, n):
@@ -566,7 +609,218 @@ class _ConstCond(ast.NodeTransformer):
         if isinstance(n.test, ast.Constant) and isinstance(n.test.value, bool):
             taken = n.body if n.test.value else n.orelse
             return taken or ast.copy_location(ast.Pass(), n)
+        # inside a branch of `if C:` a conditional expression on the same C is decided (C reads only names the branch does not bind)
+        t_ = ast.unparse(n.test)
+        tnames = {x.id for x in ast.walk(n.test) if isinstance(x, ast.Name)}
+        if not any(isinstance(x, (ast.Call, ast.Attribute, ast.Subscript)) for x in ast.walk(n.test)):
+            for branch, outcome in ((n.body, True), (n.orelse, False)):
+                if not branch or tnames & set(_stores(branch)):
+                    continue
+
+                class D(ast.NodeTransformer):
+                    def visit_IfExp(self_, e):
+                        self_.generic_visit(e)
+                        if ast.unparse(e.test) == t_:
+                            return e.body if outcome else e.orelse
+                        return e
+                branch[:] = [D().visit(b) for b in branch]
         return n
+
+
+def _sort_then_use(fd, log=None):
+    """`L = <expr>` immediately followed by `L.sort(...)`: L is `sorted(<expr>, ...)` from the start (nothing reads it in between);
+    `x = T.pop(k)` immediately followed by `U[key] = x` with x used nowhere else: `U[key] = T.pop(k)` (the right-hand side is evaluated first)."""
+    def rewrite(stmts):
+        i = 0
+        while i + 1 < len(stmts):
+            st, nxt = stmts[i], stmts[i + 1]
+            if isinstance(st, ast.Assign) and len(st.targets) == 1 and isinstance(st.targets[0], ast.Name) and isinstance(nxt, ast.Expr) and \
+                    isinstance(nxt.value, ast.Call) and isinstance(nxt.value.func, ast.Attribute) and nxt.value.func.attr == 'sort' and \
+                    isinstance(nxt.value.func.value, ast.Name) and nxt.value.func.value.id == st.targets[0].id and not nxt.value.args and \
+                    isinstance(st.value, (ast.ListComp, ast.List, ast.Call)) and \
+                    (not isinstance(st.value, ast.Call) or (isinstance(st.value.func, ast.Name) and st.value.func.id in ('list', 'sorted'))):
+                after = stmts[i + 2] if i + 2 < len(stmts) else None
+                n_occ = sum(1 for n in _walk_no_defs(fd.body) if isinstance(n, ast.Name) and n.id == st.targets[0].id)
+                if isinstance(after, ast.For) and isinstance(after.iter, ast.Name) and after.iter.id == st.targets[0].id and n_occ == 3:
+                    # ... and only looped over afterwards: the loop walks sorted(L)
+                    after.iter = ast.copy_location(ast.Call(func=ast.Name(id='sorted', ctx=ast.Load()), args=[after.iter], keywords=nxt.value.keywords), after.iter)
+                    ast.fix_missing_locations(after)
+                else:
+                    st.value = ast.copy_location(ast.Call(func=ast.Name(id='sorted', ctx=ast.Load()), args=[st.value], keywords=nxt.value.keywords), st.value)
+                    ast.fix_missing_locations(st)
+                del stmts[i + 1]
+                if log is not None:
+                    log.append('# %s sorted in place right after its creation in %s: created sorted' % (st.targets[0].id, fd.name))
+                continue
+            if isinstance(st, ast.Assign) and len(st.targets) == 1 and isinstance(st.targets[0], ast.Name) and isinstance(st.value, ast.Call) and \
+                    isinstance(st.value.func, ast.Attribute) and st.value.func.attr == 'pop' and isinstance(nxt, ast.Assign) and len(nxt.targets) == 1 and \
+                    isinstance(nxt.targets[0], ast.Subscript) and isinstance(nxt.value, ast.Name) and nxt.value.id == st.targets[0].id and \
+                    sum(1 for n in _walk_no_defs(fd.body) if isinstance(n, ast.Name) and n.id == st.targets[0].id) == 2:
+                nxt.value = st.value
+                del stmts[i]
+                continue
+            for fld in ('body', 'orelse', 'finalbody'):
+                L = getattr(st, fld, None)
+                if isinstance(L, list) and L and isinstance(L[0], ast.stmt) and not isinstance(st, (ast.FunctionDef, ast.ClassDef)):
+                    rewrite(L)
+            i += 1
+        if stmts:
+            st = stmts[-1]
+            for fld in ('body', 'orelse', 'finalbody'):
+                L = getattr(st, fld, None)
+                if isinstance(L, list) and L and isinstance(L[0], ast.stmt) and not isinstance(st, (ast.FunctionDef, ast.ClassDef)):
+                    rewrite(L)
+    rewrite(fd.body)
+
+
+def _param_copy(fd, log=None):
+    """`x = p` at the top level with p a parameter that is not read or bound anywhere after that statement, x not occurring before it: x is
+    the parameter under another name (`remaining = count` so that the argument is "not mutated").  x is written as p."""
+    a = fd.args
+    params = {x.arg for x in a.posonlyargs + a.args + a.kwonlyargs}
+    if any(isinstance(n, (ast.FunctionDef, ast.AsyncFunctionDef, ast.Lambda, ast.Global, ast.Nonlocal)) for n in ast.walk(fd) if n is not fd):
+        return
+    for i, st in enumerate(list(fd.body)):
+        if not (isinstance(st, ast.Assign) and len(st.targets) == 1 and isinstance(st.targets[0], ast.Name) and isinstance(st.value, ast.Name) and
+                st.value.id in params and st.targets[0].id not in params):
+            continue
+        x, p_ = st.targets[0].id, st.value.id
+        before = [n for b in fd.body[:i] for n in _walk_no_defs([b]) if isinstance(n, ast.Name) and n.id == x]
+        after_p = [n for b in fd.body[i + 1:] for n in _walk_no_defs([b]) if isinstance(n, ast.Name) and n.id == p_]
+        if before or after_p:
+            continue
+        fd.body = [_Rename({x: p_}).visit(b) for b in fd.body if b is not st]
+        if log is not None:
+            log.append('# %s, a copy of the parameter %s that is not used again, written as %s in %s' % (x, p_, p_, fd.name))
+        return _param_copy(fd, log)
+
+
+def _thread_flag(fd, log=None):
+    """`flag = <literal bool>` ... an if / elif chain some of whose branches end up assigning `flag = <expr>` ... immediately followed by
+    `if flag: X else: Y` (or `if not flag`), flag used nowhere else: the decision is made where the flag is set.  Every branch of the chain that can
+    fall through gets its own copy of the decision with the flag written as what that branch bound it to (the literal when it did not), so a
+    flag-driven epilogue reads like the branch-local code it stands for."""
+    if any(isinstance(n, (ast.FunctionDef, ast.AsyncFunctionDef, ast.Lambda, ast.Global, ast.Nonlocal)) for n in ast.walk(fd) if n is not fd):
+        return
+
+    def leaves(chain):
+        """the statement lists at the ends of an if / elif / else chain (an absent else is a leaf of its own: None)"""
+        out = [chain.body]
+        if not chain.orelse:
+            out.append(None)
+        elif len(chain.orelse) == 1 and isinstance(chain.orelse[0], ast.If):
+            out += leaves(chain.orelse[0])
+        else:
+            out.append(chain.orelse)
+        return out
+
+    body = fd.body
+    for j in range(1, len(body)):
+        dec = body[j]
+        chain = body[j - 1]
+        if not (isinstance(dec, ast.If) and isinstance(chain, ast.If)):
+            continue
+        t = dec.test
+        neg = isinstance(t, ast.UnaryOp) and isinstance(t.op, ast.Not)
+        tn = t.operand if neg else t
+        if not isinstance(tn, ast.Name):
+            continue
+        flag = tn.id
+        init = next((k for k in range(j - 1) if isinstance(body[k], ast.Assign) and len(body[k].targets) == 1 and isinstance(body[k].targets[0], ast.Name) and
+                     body[k].targets[0].id == flag and isinstance(body[k].value, ast.Constant) and isinstance(body[k].value.value, bool)), None)
+        if init is None:
+            continue
+        occ = [n for n in _walk_no_defs(fd.body) if isinstance(n, ast.Name) and n.id == flag]
+        lv = leaves(chain)
+        if None in lv:
+            continue        # a chain without else: the fall-through case would need a new branch; not this form
+        sets = {}
+        ok = True
+        n_stores = 1
+        for L in lv:
+            here = [x for x in L if isinstance(x, ast.Assign) and len(x.targets) == 1 and isinstance(x.targets[0], ast.Name) and x.targets[0].id == flag]
+            deep = [n for x in L for n in _walk_no_defs([x]) if isinstance(n, ast.Name) and n.id == flag]
+            if len(deep) != len(here) or len(here) > 1:
+                ok = False
+                break
+            n_stores += len(here)
+            if here:
+                # the value must still mean the same at the end of the branch
+                after = L[L.index(here[0]) + 1:]
+                names = {n.id for n in ast.walk(here[0].value) if isinstance(n, ast.Name)}
+                if names & set(_stores(after)) or any(isinstance(n, ast.Call) for n in ast.walk(here[0].value)):
+                    ok = False
+                    break
+                sets[id(L)] = here[0]
+        if not ok or len(occ) != n_stores + 1:
+            continue
+        if any(isinstance(x, ast.Name) and x.id == flag for k in range(init + 1, j - 1) for x in _walk_no_defs([body[k]])):
+            continue
+        for L in lv:
+            if L and isinstance(L[-1], (ast.Return, ast.Raise, ast.Continue, ast.Break)):
+                if id(L) in sets:
+                    L.remove(sets[id(L)])
+                continue
+            val = sets[id(L)].value if id(L) in sets else body[init].value
+            if id(L) in sets:
+                L.remove(sets[id(L)])
+            test = ast.UnaryOp(op=ast.Not(), operand=astcopy(val)) if neg else astcopy(val)
+            d2 = ast.copy_location(ast.If(test=test, body=[astcopy(x) for x in dec.body], orelse=[astcopy(x) for x in dec.orelse]), dec)
+            ast.fix_missing_locations(d2)
+            L.append(_ConstCond().visit(d2))
+            flat = []
+            for x in L:
+                flat.extend(x if isinstance(x, list) else [x])
+            L[:] = [x for x in flat if not isinstance(x, ast.Pass)] or [ast.copy_location(ast.Pass(), dec)]
+        del body[j]
+        del body[init]
+        if log is not None:
+            log.append('# flag %s of %s decided where it is set' % (flag, fd.name))
+        return _thread_flag(fd, log)
+
+
+def _genexp_loop(fd, log=None):
+    """`G = (E for a in X for b in Y if C)` ... `for T in G: BODY` in one statement list, G used nowhere else, nothing in between that calls anything or
+    binds a name the comprehension reads, BODY without `break`: the nested loops themselves -- `for a in X: for b in Y: if C: T = E; BODY`."""
+    def rewrite(stmts):
+        i = 0
+        while i < len(stmts):
+            st = stmts[i]
+            for fld in ('body', 'orelse', 'finalbody'):
+                L = getattr(st, fld, None)
+                if isinstance(L, list) and L and isinstance(L[0], ast.stmt) and not isinstance(st, (ast.FunctionDef, ast.ClassDef)):
+                    rewrite(L)
+            if isinstance(st, ast.Assign) and len(st.targets) == 1 and isinstance(st.targets[0], ast.Name) and isinstance(st.value, (ast.GeneratorExp, ast.ListComp)) and \
+                    len(st.value.generators) >= 2 and not any(g.is_async for g in st.value.generators):
+                G = st.targets[0].id
+                occ = [n for n in _walk_no_defs(fd.body) if isinstance(n, ast.Name) and n.id == G]
+                j = next((k for k in range(i + 1, len(stmts)) if isinstance(stmts[k], ast.For) and isinstance(stmts[k].iter, ast.Name) and stmts[k].iter.id == G), None)
+                if j is not None and len(occ) == 2 and not stmts[j].orelse:
+                    loop = stmts[j]
+                    between = stmts[i + 1:j]
+                    reads = {n.id for n in ast.walk(st.value) if isinstance(n, ast.Name) and isinstance(n.ctx, ast.Load)}
+                    binds = {n.id for g in st.value.generators for n in ast.walk(g.target) if isinstance(n, ast.Name)}
+                    calm = all(isinstance(b, ast.Assign) and not any(isinstance(x, (ast.Call, ast.Await, ast.Yield)) for x in ast.walk(b)) for b in between) and \
+                        not (set(_stores(between)) & (reads | binds))
+                    own_inner = {id(y) for b in loop.body for lp_ in _walk_no_defs([b]) if isinstance(lp_, (ast.For, ast.While)) for y in ast.walk(lp_)}
+                    breaks = [n for b in loop.body for n in _walk_no_defs([b]) if isinstance(n, ast.Break) and id(n) not in own_inner]
+                    clash = binds & (set(_stores(loop.body)) | {n.id for n in ast.walk(loop.target) if isinstance(n, ast.Name)}) - \
+                        {n.id for n in ast.walk(st.value.elt) if isinstance(n, ast.Name)}
+                    if calm and not breaks and not clash:
+                        inner = [ast.copy_location(ast.Assign(targets=[loop.target], value=st.value.elt, type_comment=None), loop)] + loop.body
+                        for g in reversed(st.value.generators):
+                            for c in reversed(g.ifs):
+                                inner = [ast.copy_location(ast.If(test=c, body=inner, orelse=[]), loop)]
+                            inner = [ast.copy_location(ast.For(target=g.target, iter=g.iter, body=inner, orelse=[], type_comment=None), loop)]
+                        for x in inner:
+                            ast.fix_missing_locations(x)
+                        stmts[j:j + 1] = inner
+                        del stmts[i]
+                        if log is not None:
+                            log.append('# generator %s of %s written as the loops it stands for' % (G, fd.name))
+                        continue
+            i += 1
+    rewrite(fd.body)
 
 
 def _stores(stmts):
@@ -902,6 +1156,32 @@ class Inliner:
                     taken.add(nme)
             return ren
 
+        # a statement helper called in a loop header (`for m in self._matches(..):`) is called exactly once, before the loop: bind its result first
+        def hoist_headers(stmts):
+            i = 0
+            while i < len(stmts):
+                st = stmts[i]
+                for fld in ('body', 'orelse', 'finalbody'):
+                    L = getattr(st, fld, None)
+                    if isinstance(L, list) and L and isinstance(L[0], ast.stmt) and not isinstance(st, (ast.FunctionDef, ast.ClassDef)):
+                        hoist_headers(L)
+                if isinstance(st, ast.For) and isinstance(st.iter, ast.Call):
+                    r = resolve(st.iter)
+                    if r and not r[0].other_decorators and _expr_helper(r[0]) is None and \
+                            not any(isinstance(x, (ast.Yield, ast.YieldFrom)) for x in _walk_no_defs(r[0].fd.body)):
+                        k = 1
+                        while 'it_%d' % k in taken:
+                            k += 1
+                        nm = 'it_%d' % k
+                        taken.add(nm)
+                        bind = ast.copy_location(ast.Assign(targets=[ast.Name(id=nm, ctx=ast.Store())], value=st.iter, type_comment=None), st)
+                        st.iter = ast.copy_location(ast.Name(id=nm, ctx=ast.Load()), st.iter)
+                        ast.fix_missing_locations(bind)
+                        stmts.insert(i, bind)
+                        i += 1
+                i += 1
+        hoist_headers(fd.body)
+
         class ExprInline(ast.NodeTransformer):
             def visit_Call(self, n):
                 self.generic_visit(n)
@@ -1058,7 +1338,18 @@ class Inliner:
                     out.append(st)
                     continue
                 ystmts = [n for n in _walk_no_defs(h.body) if isinstance(n, ast.Expr) and isinstance(n.value, ast.Yield)]
-                if len(ystmts) != len(ys) or any(isinstance(n, ast.Break) for b in st.body for n in _walk_no_defs([b])):
+                has_break = any(isinstance(n, ast.Break) for b in st.body for n in _walk_no_defs([b]))
+                if has_break:
+                    # a break in the caller's body leaves the helper's loop: the same thing when the helper is one loop, nothing after it, and every
+                    # yield sits in that loop and in no inner one
+                    hb = [x for x in h.body if not (isinstance(x, ast.Expr) and isinstance(x.value, ast.Constant))]
+                    one_loop = len(hb) == 1 and isinstance(hb[0], (ast.For, ast.While)) and not hb[0].orelse
+                    inner = {id(y) for lp_ in _walk_no_defs(hb[0].body) if isinstance(lp_, (ast.For, ast.While)) for y in ast.walk(lp_)} if one_loop else set()
+                    # (a break of the caller's own inner loops stays what it is)
+                    own_inner = {id(y) for b in st.body for lp_ in _walk_no_defs([b]) if isinstance(lp_, (ast.For, ast.While)) for y in ast.walk(lp_)}
+                    outer_breaks = [n for b in st.body for n in _walk_no_defs([b]) if isinstance(n, ast.Break) and id(n) not in own_inner]
+                    has_break = bool(outer_breaks) and not (one_loop and not any(id(y) in inner for y in ys))
+                if len(ystmts) != len(ys) or has_break:
                     out.append(st)
                     continue
                 has_continue = any(isinstance(n, ast.Continue) for b in st.body for n in _walk_no_defs([b]))
@@ -1140,7 +1431,9 @@ class Inliner:
             the comprehension with the helper's loops as its own generators and x written as v"""
             def _conv(self, n):
                 self.generic_visit(n)
-                if len(n.generators) != 1 or n.generators[0].is_async or not isinstance(n.generators[0].target, ast.Name):
+                if len(n.generators) != 1 or n.generators[0].is_async or not (
+                        isinstance(n.generators[0].target, ast.Name) or
+                        (isinstance(n.generators[0].target, ast.Tuple) and all(isinstance(t_, ast.Name) for t_ in n.generators[0].target.elts))):
                     return n
                 g0 = n.generators[0]
                 if not isinstance(g0.iter, ast.Call):
@@ -1190,7 +1483,13 @@ class Inliner:
                     val = _Rename(ren).visit(astcopy(val))
                 gens = [_Subst(env).visit(astcopy(g)) for g in gens]
                 val = _Subst(env).visit(astcopy(val))
-                sub = {g0.target.id: val}
+                if isinstance(g0.target, ast.Name):
+                    sub = {g0.target.id: val}
+                elif isinstance(val, ast.Tuple) and len(val.elts) == len(g0.target.elts):
+                    # a pair yielded and unpacked: element by element
+                    sub = {t_.id: v_ for t_, v_ in zip(g0.target.elts, val.elts)}
+                else:
+                    return n
                 for fld in ('elt', 'key', 'value'):
                     if hasattr(n, fld):
                         setattr(n, fld, _Subst(sub).visit(getattr(n, fld)))
@@ -1205,6 +1504,7 @@ class Inliner:
             visit_GeneratorExp = _conv
             visit_ListComp = _conv
             visit_SetComp = _conv
+            visit_DictComp = _conv
 
             def visit_FunctionDef(self, n):
                 return n if n is not fd else self.generic_visit(n)
@@ -1347,6 +1647,16 @@ class Inliner:
 
             def visit_Call(self, n):
                 self.generic_visit(n)
+                # range(X - 1, -1, -1) counts X-1 .. 0: reversed(range(X))
+                if isinstance(n.func, ast.Name) and n.func.id == 'range' and len(n.args) == 3 and not n.keywords:
+                    def neg1(e_):
+                        return (isinstance(e_, ast.UnaryOp) and isinstance(e_.op, ast.USub) and isinstance(e_.operand, ast.Constant) and e_.operand.value == 1) or \
+                            (isinstance(e_, ast.Constant) and e_.value == -1)
+                    a0 = n.args[0]
+                    if neg1(n.args[1]) and neg1(n.args[2]) and isinstance(a0, ast.BinOp) and isinstance(a0.op, ast.Sub) and \
+                            isinstance(a0.right, ast.Constant) and a0.right.value == 1:
+                        inner = ast.Call(func=ast.Name(id='range', ctx=ast.Load()), args=[a0.left], keywords=[])
+                        return ast.copy_location(ast.Call(func=ast.Name(id='reversed', ctx=ast.Load()), args=[inner], keywords=[]), n)
                 if isinstance(n.func, ast.Attribute) and n.func.attr == 'join' and len(n.args) == 1 and not n.keywords and \
                         isinstance(n.func.value, (ast.Constant, ast.Name)) and isinstance(n.args[0], (ast.List, ast.Tuple)) and 1 <= len(n.args[0].elts) <= 8 and \
                         not any(isinstance(e_, ast.Starred) for e_ in n.args[0].elts) and \
@@ -1357,8 +1667,21 @@ class Inliner:
                     return ast.copy_location(out, n)
                 return n
 
+        # module-level constants that are literal tuples: `lo, hi = PAIR` is `lo = PAIR[0]; hi = PAIR[1]`
+        const_tuples = {}
+        for tree_ in self.trees.values():
+            for st_ in tree_.body:
+                if isinstance(st_, ast.Assign) and len(st_.targets) == 1 and isinstance(st_.targets[0], ast.Name) and isinstance(st_.value, ast.Tuple) and \
+                        not any(isinstance(e_, ast.Starred) for e_ in st_.value.elts):
+                    const_tuples[st_.targets[0].id] = len(st_.value.elts) if st_.targets[0].id not in const_tuples else None
+
         class T(ast.NodeTransformer):
             def visit_Assign(self, n):
+                if len(n.targets) == 1 and isinstance(n.targets[0], (ast.Tuple, ast.List)) and isinstance(n.value, ast.Name) and \
+                        const_tuples.get(n.value.id) == len(n.targets[0].elts) and all(isinstance(x, ast.Name) for x in n.targets[0].elts):
+                    return [ast.copy_location(ast.Assign(targets=[ast.Name(id=x.id, ctx=ast.Store())], value=ast.Subscript(
+                        value=ast.Name(id=n.value.id, ctx=ast.Load()), slice=ast.Constant(value=k_), ctx=ast.Load()), type_comment=None), n)
+                        for k_, x in enumerate(n.targets[0].elts)]
                 if len(n.targets) == 1 and isinstance(n.targets[0], (ast.Tuple, ast.List)) and isinstance(n.value, (ast.Tuple, ast.List)) and \
                         len(n.targets[0].elts) == len(n.value.elts) and all(isinstance(x, ast.Name) for x in n.targets[0].elts) and \
                         not any(isinstance(x, ast.Starred) for x in n.value.elts):
@@ -1479,10 +1802,14 @@ class Inliner:
                 _copy_in_copy_out(fd)
                 _extend_as_loop(fd)
                 _get_or_create(fd)
+                _genexp_loop(fd, self.log)
+                _sort_then_use(fd, self.log)
                 _filter_then_loop(fd)
                 _search_loop_unroll(fd, self.log)
                 _fallback_split(fd, self.log)
                 _guard_return(fd, self.log)
+                _thread_flag(fd, self.log)
+                _param_copy(fd, self.log)
                 _const_str_locals(fd, self.log)
                 _scalarise_list_local(fd, self.log)
                 _hoisted_locals(fd, self.log)
